@@ -97,39 +97,64 @@ theorem fee_limit_eq_reserve (cx : Cx) (qid : Int) (ps : List Proof) (s s' : DL)
       c.msat = (if q.isMpp then (if q.amountMsat == 0 then invMsat s.2 q.inv else q.amountMsat) else invMsat s.2 q.inv) :=
   melt_payCalls cx qid ps s s' r h
 
-/-- The quoted amount covers the msat that will be paid (invoice amount, or the MPP partial amount), for msat < 2^63. -/
+/-- The quoted amount covers the msat that will be paid (invoice amount, or the MPP partial amount), for msat < 2^63;
+    `ii` is the invoice of the request (`hh` its payment hash: the same id unless the invoice was made by somebody else
+    with the hash of another invoice). -/
 theorem meltquote_covers_msat (cx : Cx) (qid : Nat) (inv : InvReq) (msatOf : Nat → UInt64) (u : Bool) (mpp : Option UInt64)
     (s s' : DL) (q : MeltQ) (h : runM (requestMeltQuote cx qid inv msatOf u mpp) s = (s', .ok q))
     (hlt : ∀ hh, (msatOf hh).toNat < 2 ^ 63) :
-    ∃ hh, inv = .inv hh ∧
+    ∃ ii hh, (inv = .inv hh ∧ ii = hh ∨ inv = .forged ii hh) ∧ q.inv = ii ∧
       (match mpp with
-       | none => (msatOf hh).toNat ≤ q.amount.toNat * 1000
-       | some m => m.toNat ≤ q.amount.toNat * 1000 ∧ m < msatOf hh ∧ q.isMpp = true ∧ q.amountMsat = m) := by
-  rcases requestMeltQuote_cases cx qid inv msatOf u mpp s s' _ h with ⟨e, he, _⟩ | ⟨hh, q', hinv, he, hok⟩
+       | none => (msatOf ii).toNat ≤ q.amount.toNat * 1000
+       | some m => m.toNat ≤ q.amount.toNat * 1000 ∧ m < msatOf ii ∧ q.isMpp = true ∧ q.amountMsat = m) := by
+  rcases requestMeltQuote_cases cx qid inv msatOf u mpp s s' _ h with ⟨e, he, _⟩ | ⟨ii, hh, q', hinv, he, hok⟩
   · cases he
   · injection he with he; subst he
-    refine ⟨hh, hinv, ?_⟩
+    refine ⟨ii, hh, hinv, hok.id.2.1, ?_⟩
     rcases meltQuotePlan_ok hok.plan with ⟨rfl, hp⟩ | ⟨m, rfl, _, _, hlt', hp⟩
     · simp only []
-      have : q.amount = ceilSat (msatOf hh) := by injection hp with _ hp; injection hp
-      rw [this]; exact ceilSat_covers _ (hlt hh)
+      have : q.amount = ceilSat (msatOf ii) := by injection hp with _ hp; injection hp
+      rw [this]; exact ceilSat_covers _ (hlt ii)
     · simp only []
       injection hp with h1 hp; injection hp with h2 h3
       refine ⟨?_, hlt', h1, h2⟩
       rw [h3]
       apply ceilSat_covers
-      have := hlt hh
+      have := hlt ii
       rw [UInt64.lt_iff_toNat_lt] at hlt'
       omega
 
 /-- The fee reserve never exceeds what the quote says; an internally settled quote has none. -/
 theorem meltquote_reserve (cx : Cx) (qid : Nat) (inv : InvReq) (msatOf : Nat → UInt64) (u : Bool) (mpp : Option UInt64)
     (s s' : DL) (q : MeltQ) (h : runM (requestMeltQuote cx qid inv msatOf u mpp) s = (s', .ok q)) :
-    ∃ hh, inv = .inv hh ∧ q.feeReserve = reserveFor (dbGetMintQByHash s.1 hh).toBool (lnFee s.2 q.amount) := by
-  rcases requestMeltQuote_cases cx qid inv msatOf u mpp s s' _ h with ⟨e, he, _⟩ | ⟨hh, q', hinv, he, hok⟩
+    ∃ hh, q.hash = hh ∧ q.feeReserve = reserveFor (dbGetMintQByHash s.1 hh).toBool (lnFee s.2 q.amount) := by
+  rcases requestMeltQuote_cases cx qid inv msatOf u mpp s s' _ h with ⟨e, he, _⟩ | ⟨ii, hh, q', hinv, he, hok⟩
   · cases he
   · injection he with he; subst he
-    exact ⟨hh, hinv, hok.reserve⟩
+    exact ⟨hh, hok.id.2.2.1, hok.reserve⟩
+
+/-- F16 (repaired): a melt quote whose payment hash is that of a mint quote of this mint — the only quotes that are settled
+    internally — is for that mint quote's OWN invoice; an invoice made by somebody else with that payment hash (and any
+    amount) is refused, whatever else the request says. -/
+theorem internal_only_for_own_invoice (cx : Cx) (qid : Nat) (inv : InvReq) (msatOf : Nat → UInt64) (u : Bool) (mpp : Option UInt64)
+    (s s' : DL) (q : MeltQ) (h : runM (requestMeltQuote cx qid inv msatOf u mpp) s = (s', .ok q))
+    (hm : (dbGetMintQByHash s.1 q.hash).toBool = true) : q.inv = q.hash := by
+  rcases requestMeltQuote_cases cx qid inv msatOf u mpp s s' _ h with ⟨e, he, _⟩ | ⟨ii, hh, q', hinv, he, hok⟩
+  · cases he
+  · injection he with he; subst he
+    obtain ⟨_, hi, hhh, _, _⟩ := hok.id
+    rw [hhh] at hm
+    rw [hi, hhh, hok.own hm]
+
+theorem foreign_invoice_refused (cx : Cx) (qid : Nat) (f hh : Nat) (hne : f ≠ hh) (msatOf : Nat → UInt64) (u : Bool) (mpp : Option UInt64)
+    (s s' : DL) (r : Except E MeltQ) (h : runM (requestMeltQuote cx qid (.forged f hh) msatOf u mpp) s = (s', r))
+    (hm : (dbGetMintQByHash s.1 hh).toBool = true) : ∃ e, r = .error e ∧ s' = s := by
+  rcases requestMeltQuote_cases cx qid _ msatOf u mpp s s' _ h with h1 | ⟨ii, hh', q', hinv, he, hok⟩
+  · exact h1
+  · rcases hinv with ⟨h1, _⟩ | h1
+    · cases h1
+    · injection h1 with h1 h2; subst h1; subst h2
+      exact absurd (hok.own hm) hne
 
 /-! Non-vacuity. -/
 example : ceilSat 110488 = 111 := by decide
